@@ -497,6 +497,27 @@ def reviewed_momentumDeProtoAssign : List (String × String) := [
   ("ChangesHash", "*types.DeProtoHash(pb.ChangesHash)"), ("PublicKey", "pb.PublicKey"),
   ("Signature", "pb.Signature")]
 
+/-! ## what the Go types guarantee of a generated message: `uint64` fields are below 2^64 -/
+
+def ABodyPB.NatsOK (p : ABodyPB) : Prop :=
+  p.version < two64 ∧ p.chainIdentifier < two64 ∧ p.blockType < two64 ∧ p.height < two64 ∧
+  p.fusedPlasma < two64 ∧ p.difficulty < two64 ∧ p.basePlasma < two64 ∧ p.totalPlasma < two64 ∧
+  ∀ m, p.momentumAcknowledged = some m → m.height < two64
+
+mutual
+def BlockPB.NatsOK : BlockPB → Prop
+  | ⟨body, ds⟩ => body.NatsOK ∧ NatsOKList ds
+def NatsOKList : List BlockPB → Prop
+  | [] => True
+  | d :: ds => d.NatsOK ∧ NatsOKList ds
+end
+
+def AccountHeaderPB.NatsOK (p : AccountHeaderPB) : Prop := ∀ hh, p.hashHeight = some hh → hh.height < two64
+
+def MomentumPB.NatsOK (p : MomentumPB) : Prop :=
+  p.version < two64 ∧ p.chainIdentifier < two64 ∧ p.height < two64 ∧ p.timestamp < two64 ∧
+  ∀ h ∈ p.content, h.NatsOK
+
 /-! ## well-formedness for the round trips: widths of ALL fixed-size fields, amount not negative -/
 
 structure ABody.PBWF (b : ABody) : Prop where
